@@ -424,6 +424,15 @@ func (f *Frame) stdModel(in ssa.Instruction, callee *ssa.Function, cc *ssa.CallC
 			c.emit(fmt.Sprintf("(declare-fun %s (Str) Str)", fn))
 		}
 		return []Term{app(SStr, fn, args[0][0])}, true
+	case "strings.TrimRight", "strings.TrimLeft", "strings.Trim":
+		// deterministic functions of their two string arguments; nothing else is assumed
+		c.note("assumed", "assumed contract: "+name+" is a function of its arguments (result otherwise unconstrained)")
+		fn := "ext_" + smtSym(name)
+		if !c.declared[fn] {
+			c.declared[fn] = true
+			c.emit(fmt.Sprintf("(declare-fun %s (Str Str) Str)", fn))
+		}
+		return []Term{app(SStr, fn, args[0][0], args[1][0])}, true
 	case "strings.EqualFold":
 		c.note("assumed", "assumed contract: strings.EqualFold(s,t) is a reflexive function of its arguments")
 		if !c.declared["ext_equalfold"] {
